@@ -88,7 +88,7 @@ pub fn generate(cx: &super::GenCtx) -> Vec<Plan> {
         (spec.cmd.clone(), spec.dense)
     };
     s.push(Action::send(cmd));
-    let searches = rng.range(1, 2);
+    let searches = rng.range(1, 3);
     for _ in 0..searches {
         let d = rng.range(2, if dense { 3 } else { 5 });
         let mut l = Limits {
@@ -124,13 +124,21 @@ pub fn generate(cx: &super::GenCtx) -> Vec<Plan> {
             }
         }
         s.push(Action::send(l.line(Some(&mut rng))));
+        let mut eager = false;
         if let Some(k) = stop_after {
             s.push(Action::DelaySteps(k));
             s.push(Action::send("stop"));
+            // sometimes the next go follows the stop at once, while the stopped search is
+            // still unwinding
+            eager = rng.chance(1, 2);
         }
-        s.push(Action::WaitBestmove);
-        s.push(Action::WaitIdle);
+        if !eager {
+            s.push(Action::WaitBestmove);
+            s.push(Action::WaitIdle);
+        }
     }
+    s.push(Action::WaitBestmove);
+    s.push(Action::WaitIdle);
     s.push(Action::send("quit"));
     plan.script = s;
     gen::machine(&mut plan, &mut rng, 30_000, true);
